@@ -3,7 +3,7 @@
 (incremental), optionally an extension under /verif/py (spec["ext"]), runs spec["script"] under
 /usr/bin/python3.11 with that module, and judges the report. spec["variants"][tier] may list extra
 sanitizer builds ("asan", "tsan") with a script each; their reports are merged into the main one."""
-import json, os, subprocess, sys
+import json, os, shutil, subprocess, sys
 import check, pybuild
 
 
@@ -35,7 +35,10 @@ def run_one(spec, prop, tier, seed, variant, script, deadline, extra):
     out = os.path.join(b, "report-%s%s.json" % (prop, "-" + variant if variant else ""))
     if os.path.exists(out):
         os.remove(out)
-    cmd = [pybuild.PY, os.path.join(check.VERIF, "py", script), "--tier", tier, "--seed", str(seed), "--out", out, "--deadline", str(deadline)] + extra
+    # sanitizer runtimes of this tool-chain map their shadow memory at fixed addresses and fail at random under
+    # high-entropy ASLR (vm.mmap_rnd_bits = 28 here: "ThreadSanitizer failed to allocate ..."): run them with ASLR off
+    pre = ["setarch", "x86_64", "-R"] if variant in ("tsan", "asan") and shutil.which("setarch") else []
+    cmd = pre + [pybuild.PY, os.path.join(check.VERIF, "py", script), "--tier", tier, "--seed", str(seed), "--out", out, "--deadline", str(deadline)] + extra
     p = subprocess.run(cmd, env=env, cwd=check.VERIF)
     if p.returncode != 0 or not os.path.exists(out):
         check.log("HARNESS-ERROR: %s exited with %d" % (script, p.returncode))
